@@ -42,10 +42,11 @@ theorem store_text0 {a : Rep} (hc : a.buf.length = a.cap) (b : Bytes) (h : b.len
 /-! ### facts about the regenerated constants of `Gen/StrGen.lean` (the G obligations; restated in `AslProps/C03.lean`) -/
 
 theorem gen_space_pos : 0 < SPACE := by decide
-theorem gen_number_allocs : 11 ≤ Gen.Str.intAlloc ∧ 10 ≤ Gen.Str.uintAlloc ∧ 5 ≤ Gen.Str.boolAlloc := by decide
+theorem gen_number_allocs : 11 < (alloc Gen.Str.intAlloc).cap ∧ 10 < (alloc Gen.Str.uintAlloc).cap ∧
+    5 < (alloc Gen.Str.boolAlloc).cap := by decide
 theorem gen_long_allocs : Gen.Str.longInlineBelow ≤ 1000000000000000 ∧ Gen.Str.longInlineAbove ≤ 100000000000000 ∧
-    15 ≤ SPACE - 1 ∧ 20 ≤ Gen.Str.longHeapAlloc ∧ Gen.Str.ulongInlineBelow ≤ 1000000000000000 ∧
-    20 ≤ Gen.Str.ulongHeapAlloc := by decide
+    15 < (alloc (SPACE - 1)).cap ∧ 20 < (alloc Gen.Str.longHeapAlloc).cap ∧ Gen.Str.ulongInlineBelow ≤ 1000000000000000 ∧
+    20 < (alloc Gen.Str.ulongHeapAlloc).cap := by decide
 theorem gen_printf : 2 ≤ Gen.Str.fmtTries ∧ 2 ≤ Gen.Str.fTries ∧ Gen.Str.fSpace ≤ Gen.Str.fStack ∧ 0 < Gen.Str.fSpace := by
   decide
 theorem gen_intmin : myatoi Gen.Str.intMinText = -2147483648 ∧ (∀ c ∈ Gen.Str.intMinText, c ≠ 0) ∧
@@ -423,16 +424,14 @@ theorem ofText_spec (allocN : Nat) (txt : Bytes) (h : txt.length < (alloc allocN
 theorem ofInt_spec (x : Int) (h1 : -2147483648 ≤ x) (h2 : x < 2147483648) :
     ∃ r, ofInt x = some r ∧ Models r (myitoa x) := by
   apply ofText_spec
-  · have := (alloc_spec Gen.Str.intAlloc).2
-    have := myitoa_length x h1 h2
+  · have := myitoa_length x h1 h2
     have := gen_number_allocs.1
     omega
   · exact myitoa_nulfree x
 
 theorem ofUInt_spec (x : Nat) (h : x < 4294967296) : ∃ r, ofUInt x = some r ∧ Models r (utoa x) := by
   apply ofText_spec
-  · have := (alloc_spec Gen.Str.uintAlloc).2
-    have := utoa_length 10 x (by omega) (by omega)
+  · have := utoa_length 10 x (by omega) (by omega)
     have := gen_number_allocs.2.1
     omega
   · exact utoa_nulfree x
@@ -442,17 +441,14 @@ theorem ofULong_spec (x : Nat) (h : x < 18446744073709551616) : ∃ r, ofULong x
   obtain ⟨_, _, g3, _, g5, g6⟩ := gen_long_allocs
   apply ofText_spec
   · split
-    · have := (alloc_spec (SPACE - 1)).2
-      have := utoa_length 15 x (by omega) (by omega); omega
-    · have := (alloc_spec Gen.Str.ulongHeapAlloc).2
-      have := utoa_length 20 x (by omega) (by omega); omega
+    · have := utoa_length 15 x (by omega) (by omega); omega
+    · have := utoa_length 20 x (by omega) (by omega); omega
   · exact utoa_nulfree x
 
 theorem ofBool_spec (x : Bool) : ∃ r, ofBool x = some r ∧
     Models r (if x then [116, 114, 117, 101] else [102, 97, 108, 115, 101]) := by
   apply ofText_spec
-  · have := (alloc_spec Gen.Str.boolAlloc).2
-    have := gen_number_allocs.2.2
+  · have := gen_number_allocs.2.2
     cases x <;> simp <;> omega
   · cases x <;> (intro c hc; simp at hc; rcases hc with rfl | rfl | rfl | rfl | rfl <;> decide)
 
@@ -489,9 +485,8 @@ theorem ofLong_spec (x : Int) (h1 : -9223372036854775808 ≤ x) (h2 : x < 922337
   apply ofText_spec
   · split
     · rename_i hr
-      have := (alloc_spec (SPACE - 1)).2
       have := hl2 ⟨by omega, by omega⟩; omega
-    · have := (alloc_spec Gen.Str.longHeapAlloc).2; omega
+    · omega
   · exact myltoa_nulfree x
 
 end AslProofs.Str
